@@ -35,15 +35,15 @@ def shards(tier):
     q = tier == "quick"
     out = []
     for i in range(7):
-        out.append({"name": f"hist{i}", "tf": False, "jax": False, "examples": 32 if q else 1700})
+        out.append({"name": f"hist{i}", "tf": False, "jax": False, "examples": 32 if q else 600})
     for i in range(3):
-        out.append({"name": f"hist_jax{i}", "tf": False, "jax": True, "examples": 6 if q else 250})
+        out.append({"name": f"hist_jax{i}", "tf": False, "jax": True, "examples": 6 if q else 100})
     for i in range(3):
         # fit-heavy histories over {jax, numpy} x {32b, 64b}: the same model is fitted again after a precision
         # switch (jit caches keyed on the model object survive the switch)
-        out.append({"name": f"hist_jaxfit{i}", "tf": False, "jax": True, "fit_heavy": True, "examples": 6 if q else 200})
+        out.append({"name": f"hist_jaxfit{i}", "tf": False, "jax": True, "fit_heavy": True, "examples": 6 if q else 80})
     for i in range(3):
-        out.append({"name": f"hist_tf{i}", "tf": True, "jax": False, "examples": 5 if q else 150})
+        out.append({"name": f"hist_tf{i}", "tf": True, "jax": False, "examples": 5 if q else 60})
     return out
 
 
